@@ -33,6 +33,7 @@ import (
 
 	"github.com/sirupsen/logrus"
 
+	remotesapi "github.com/dolthub/dolt/go/gen/proto/dolt/services/remotesapi/v1alpha1"
 	"github.com/dolthub/dolt/go/libraries/doltcore/remotesrv"
 	"github.com/dolthub/dolt/go/libraries/utils/filesys"
 	"github.com/dolthub/dolt/go/store/nbs"
@@ -68,7 +69,12 @@ type Mut struct {
 }
 
 type Case struct {
-	Kind string `json:"kind"` // seal | handle
+	Kind string `json:"kind"` // seal | handle | grpc
+	// grpc: RemoteChunkStore service method called in-process; repo given as repo_path, or as repo_id (org, name)
+	GMethod string `json:"gmethod,omitempty"` // Root | Rebase | GetRepoMetadata | GetUploadLocations
+	Org     []int  `json:"org,omitempty"`
+	RName   []int  `json:"rname,omitempty"`
+	UseID   bool   `json:"useid,omitempty"`
 	// seal
 	U   URLc `json:"u"`
 	Mut Mut  `json:"mut"`
@@ -119,6 +125,7 @@ type Obs struct {
 	Joined  []int   `json:"joined"`
 	Read    []int   `json:"read"` // contents served (planted files contain their own /SB path); nil if none
 	HasRead bool    `json:"hasread"`
+	GErr    bool    `json:"gerr"` // grpc: the call returned an error
 	Touched [][]int `json:"touched"`
 }
 
@@ -369,7 +376,14 @@ func (cache *localCSCache) Get(ctx context.Context, repopath, nbfVerStr string) 
 	if err != nil {
 		return nil, err
 	}
-	newCS, err := nbs.NewLocalStore(ctx, nbfVerStr, path, 1<<20, nbs.NewUnlimitedMemQuotaProvider(), false)
+	var newCS *nbs.NomsBlockStore
+	for attempt := 0; attempt < 6; attempt++ {
+		newCS, err = nbs.NewLocalStore(ctx, nbfVerStr, path, 1<<20, nbs.NewUnlimitedMemQuotaProvider(), false)
+		if err == nil || !strings.Contains(err.Error(), "lock timeout") {
+			break
+		}
+		time.Sleep(time.Duration(200*(attempt+1)) * time.Millisecond) // harness robustness: manifest LOCK contention
+	}
 	if err != nil {
 		return nil, err
 	}
@@ -545,6 +559,130 @@ func runHandle(c Case) (any, error) {
 	return o, nil
 }
 
+// ---------------------------------------------------------------- gRPC service cases
+// The real RemoteChunkStore (NewHttpFSBackedChunkStore) over the sandbox with the LocalCSCache logic; one service
+// method is called in-process with a client-chosen repo_path / repo_id and the tree is diffed around the call.
+func runGrpc(c Case) (any, error) {
+	var o Obs
+	o.Touched = [][]int{}
+	rootRel := toStr(c.RootRel)
+	if strings.Count(rootRel, "/") != 4 || strings.Contains(rootRel, "..") {
+		return nil, fmt.Errorf("root must be exactly 5 levels below the sandbox")
+	}
+	sb, err := os.MkdirTemp("", "c39-sb-")
+	if err != nil {
+		return nil, err
+	}
+	defer os.RemoveAll(sb)
+	norm := func(abs string) string { return "/SB" + strings.TrimPrefix(abs, sb) }
+	repoPath := toStr(c.Path)
+	if c.UseID {
+		repoPath = toStr(c.Org) + "/" + toStr(c.RName)
+	}
+	// never leave the sandbox: relative paths may climb at most maxUp levels, absolute ones must be "/SB/..."
+	if strings.HasPrefix(repoPath, "/") {
+		if !strings.HasPrefix(repoPath, "/SB/") || countDotDot(repoPath) > 0 {
+			o.Skipped = "absolute repo path outside the sandbox"
+			return o, nil
+		}
+	} else if countDotDot(repoPath) > maxUp {
+		o.Skipped = "more .. segments than the sandbox is deep"
+		return o, nil
+	}
+	real := func(p string) string {
+		if strings.HasPrefix(p, "/SB/") {
+			return sb + strings.TrimPrefix(p, "/SB")
+		}
+		return p
+	}
+	root := filepath.Join(sb, rootRel)
+	if err := os.MkdirAll(root, 0o755); err != nil {
+		return nil, err
+	}
+	for _, d := range c.Dirs {
+		if err := os.MkdirAll(filepath.Join(sb, toStr(d)), 0o755); err != nil {
+			return nil, err
+		}
+	}
+	for _, f := range c.Files {
+		abs := filepath.Join(sb, toStr(f))
+		if err := os.MkdirAll(filepath.Dir(abs), 0o755); err != nil {
+			return nil, err
+		}
+		if err := os.WriteFile(abs, []byte(norm(abs)), 0o644); err != nil {
+			return nil, err
+		}
+	}
+	o.Joined = fromStr(filepath.Join("/SB/"+rootRel, repoPath))
+	o.Cleaned = fromStr(filepath.Clean(repoPath))
+	fs, err := filesys.LocalFilesysWithWorkingDir(root)
+	if err != nil {
+		return nil, err
+	}
+	cache := &localCSCache{dbs: map[string]remotesrv.RemoteSrvStore{}, fs: fs}
+	defer func() {
+		for _, cs := range cache.dbs {
+			cs.Close()
+		}
+	}()
+	rs := remotesrv.NewHttpFSBackedChunkStore(quiet, "remote.example:80", cache, fs, "http", remotesapi.PushConcurrencyControl_PUSH_CONCURRENCY_CONTROL_IGNORE_WORKING_SET,
+		remotesrv.VerifSingleSymmetricKeySealer(fixedKey), nil)
+	ctx := context.Background()
+	var id *remotesapi.RepoId
+	rp := real(repoPath)
+	if c.UseID {
+		id = &remotesapi.RepoId{Org: real(toStr(c.Org)), RepoName: toStr(c.RName)}
+		rp = ""
+	}
+	before := snapshot(sb)
+	var cerr error
+	switch c.GMethod {
+	case "Root":
+		_, cerr = rs.Root(ctx, &remotesapi.RootRequest{RepoId: id, RepoPath: rp})
+	case "Rebase":
+		_, cerr = rs.Rebase(ctx, &remotesapi.RebaseRequest{RepoId: id, RepoPath: rp})
+	case "GetRepoMetadata":
+		_, cerr = rs.GetRepoMetadata(ctx, &remotesapi.GetRepoMetadataRequest{RepoId: id, RepoPath: rp,
+			ClientRepoFormat: &remotesapi.ClientRepoFormat{NbfVersion: "__DOLT__", NbsVersion: "5"}})
+	case "GetUploadLocations":
+		h := make([]byte, 20)
+		_, cerr = rs.GetUploadLocations(ctx, &remotesapi.GetUploadLocsRequest{RepoId: id, RepoPath: rp, TableFileHashes: [][]byte{h},
+			TableFileDetails: []*remotesapi.TableFileDetails{{Id: h, ContentLength: 1, NumChunks: 1}}})
+	default:
+		return nil, fmt.Errorf("unknown grpc method %q", c.GMethod)
+	}
+	after := snapshot(sb)
+	o.GErr = cerr != nil
+	touched := map[string]bool{}
+	hasNewChild := map[string]bool{}
+	for pth := range after {
+		if _, old := before[pth]; !old {
+			hasNewChild[filepath.Dir(pth)] = true
+		}
+	}
+	for pth, e := range after {
+		if _, old := before[pth]; old {
+			continue
+		}
+		if e.dir {
+			if !hasNewChild[pth] {
+				touched[pth] = true
+			}
+		} else {
+			touched[filepath.Dir(pth)] = true
+		}
+	}
+	var ts []string
+	for t := range touched {
+		ts = append(ts, norm(t))
+	}
+	sort.Strings(ts)
+	for _, t := range ts {
+		o.Touched = append(o.Touched, fromStr(t))
+	}
+	return o, nil
+}
+
 func Run(raw json.RawMessage) (any, error) {
 	var c Case
 	if err := json.Unmarshal(raw, &c); err != nil {
@@ -555,6 +693,8 @@ func Run(raw json.RawMessage) (any, error) {
 		return runSeal(c)
 	case "handle":
 		return runHandle(c)
+	case "grpc":
+		return runGrpc(c)
 	}
 	return nil, fmt.Errorf("unknown kind %q", c.Kind)
 }
